@@ -54,6 +54,9 @@ type indexKVStore struct {
 	immutable *imap.IntMap[map[string]uint32]
 	// cache
 	bucketCache *expirable.LRU[uint32, *model.TrieBucket]
+	// flushSeq increases when flush swaps snapshot/cleans immutable store(guarded by lock),
+	// lookup based on an old sequence cannot be used for caching bucket or creating new value.
+	flushSeq uint64
 
 	lock sync.RWMutex
 }
@@ -294,6 +297,7 @@ func (s *indexKVStore) Flush() (err error) {
 
 	s.snapshot = s.family.GetSnapshot()
 	s.immutable = nil
+	s.flushSeq++
 	// purge bucket cache, because new kv write
 	s.bucketCache.Purge()
 	return nil
@@ -307,9 +311,28 @@ func (s *indexKVStore) getSnapshot() version.Snapshot {
 	return s.snapshot
 }
 
+// getFlushSeq returns current flush sequence.
+func (s *indexKVStore) getFlushSeq() uint64 {
+	s.lock.RLock()
+	defer s.lock.RUnlock()
+
+	return s.flushSeq
+}
+
+// cacheBucket caches the bucket loaded from kv store, if no flush completed since flushSeq.
+func (s *indexKVStore) cacheBucket(bucketID uint32, bucket *model.TrieBucket, flushSeq uint64) {
+	s.lock.RLock()
+	defer s.lock.RUnlock()
+
+	if s.flushSeq == flushSeq {
+		s.bucketCache.Add(bucketID, bucket)
+	}
+}
+
 func (s *indexKVStore) getOrCreateValue(bucketID uint32, key []byte,
 	createFn func() (uint32, error),
 ) (id uint32, ok, isNew bool, err error) {
+	flushSeq := s.getFlushSeq()
 	// get from memory store
 	id, ok = s.GetValueFromMem(bucketID, key)
 	if ok {
@@ -326,7 +349,8 @@ func (s *indexKVStore) getOrCreateValue(bucketID uint32, key []byte,
 			return 0, false, false, err
 		}
 		if bucket != nil {
-			s.bucketCache.Add(bucketID, bucket)
+			// bucket of an old snapshot cannot be cached
+			s.cacheBucket(bucketID, bucket, flushSeq)
 		}
 	}
 	if bucket != nil {
@@ -341,17 +365,34 @@ func (s *indexKVStore) getOrCreateValue(bucketID uint32, key []byte,
 	if createFn == nil {
 		return 0, false, false, nil
 	}
-	id, err = s.createValue(bucketID, key, createFn)
+	id, isNew, retry, err := s.createValue(bucketID, key, createFn, flushSeq)
 	if err != nil {
 		return 0, false, false, err
 	}
-	return id, true, true, nil
+	if retry {
+		// flush completed after lookup started, memory/kv store changed, need lookup again
+		return s.getOrCreateValue(bucketID, key, createFn)
+	}
+	return id, true, isNew, nil
 }
 
-// createValue creates new value.
-func (s *indexKVStore) createValue(bucketID uint32, key []byte, createFn func() (uint32, error)) (uint32, error) {
+// createValue creates new value, if the key was created by other goroutine after lookup, returns it.
+func (s *indexKVStore) createValue(bucketID uint32, key []byte, createFn func() (uint32, error),
+	flushSeq uint64,
+) (id uint32, isNew, retry bool, err error) {
 	s.lock.Lock()
 	defer s.lock.Unlock()
+
+	if s.flushSeq != flushSeq {
+		return 0, false, true, nil
+	}
+	// check memory store again under write lock
+	if id, ok := s.getValueFromMem(s.mutable, bucketID, key); ok {
+		return id, false, false, nil
+	}
+	if id, ok := s.getValueFromMem(s.immutable, bucketID, key); ok {
+		return id, false, false, nil
+	}
 
 	kvs, ok := s.mutable.Get(bucketID)
 	if !ok {
@@ -359,12 +400,12 @@ func (s *indexKVStore) createValue(bucketID uint32, key []byte, createFn func() 
 		s.mutable.Put(bucketID, kvs)
 	}
 	// generate and store value
-	id, err := createFn()
+	id, err = createFn()
 	if err != nil {
-		return 0, err
+		return 0, false, false, err
 	}
 	kvs[string(key)] = id
-	return id, nil
+	return id, true, false, nil
 }
 
 // GetValueFromMem returns value from mem store.
